@@ -153,6 +153,12 @@ class Interp:
       return self.eval(sub, [], *ins)
     if p == 'opaque':
       return self.opaque(eqn, ins)
+    if p == 'xla_pmap':
+      return self.pmap(eqn, ins)
+    if p == 'shard_map':
+      return self.shard_map(eqn, ins)
+    if p in ('sharding_constraint', 'mesh_cast', 'reshard', 'device_put'):
+      return list(ins)
     anysym = any(is_sym(x) for x in ins)
     if p == 'scan':
       return self.scan(eqn, ins)
@@ -563,6 +569,84 @@ class Interp:
         return carry
       carry = list(self.eval(bj.jaxpr, bj.consts, *bc, *carry))
     raise Unsupported('while loop did not terminate')
+
+  def pmap(self, eqn, ins):
+    """xla_pmap without collectives: the body is evaluated once per index of the mapped axis (sound: a pmapped function is the per-device function)"""
+    P = eqn.params
+    n = P['axis_size']
+    body = P['call_jaxpr']
+    in_axes, out_axes = P['in_axes'], P['out_axes']
+    for e in body.eqns:
+      if e.primitive.name in ('psum', 'all_gather', 'pmax', 'pmin', 'ppermute', 'axis_index', 'all_to_all'):
+        raise Unsupported('collective %s inside pmap' % e.primitive.name)
+    per = []
+    for i in range(n):
+      args = []
+      for x, ax in zip(ins, in_axes):
+        if ax is None:
+          args.append(x)
+        else:
+          x_ = x if is_sym(x) else np.asarray(x)
+          args.append(np.take(x_, i, axis=ax) if not is_sym(x_) else wrap(np.take(x_, i, axis=ax)))
+      per.append(self.eval(body, [], *args))
+    outs = []
+    for k, ax in enumerate(out_axes):
+      items = [per[i][k] for i in range(n)]
+      if ax is None:
+        outs.append(items[0])
+        continue
+      if any(is_sym(t) for t in items):
+        items = [self.lift(t) for t in items]
+        o = np.empty((n,) + items[0].shape, dtype=object)
+        for i, t in enumerate(items):
+          o[i] = t
+        outs.append(np.moveaxis(o, 0, ax))
+      else:
+        outs.append(np.moveaxis(np.stack([np.asarray(t) for t in items]), 0, ax))
+    return outs
+
+  def shard_map(self, eqn, ins):
+    """shard_map over a one-axis mesh without collectives (this is how jax.pmap traces): the body is evaluated once per shard on its block"""
+    P = eqn.params
+    mesh = P['mesh']
+    if len(mesh.axis_names) != 1:
+      raise Unsupported('shard_map over a multi-axis mesh')
+    name, n = mesh.axis_names[0], int(mesh.devices.size)
+    body = P['jaxpr']
+    for e in body.eqns:
+      if e.primitive.name in ('psum', 'all_gather', 'pmax', 'pmin', 'ppermute', 'axis_index', 'all_to_all', 'psum2', 'pbroadcast'):
+        raise Unsupported('collective %s inside shard_map' % e.primitive.name)
+
+    def dim_of(spec):
+      for d_, part in enumerate(spec):
+        if part == name or (isinstance(part, tuple) and name in part):
+          return d_
+      return None
+    per = []
+    for i in range(n):
+      args = []
+      for x, spec in zip(ins, P['in_specs']):
+        d_ = dim_of(spec)
+        if d_ is None:
+          args.append(x)
+          continue
+        x_ = x if is_sym(x) else np.asarray(x)
+        blk = x_.shape[d_] // n
+        sl = [slice(None)] * x_.ndim
+        sl[d_] = slice(i * blk, (i + 1) * blk)
+        args.append(x_[tuple(sl)])
+      per.append(self.eval(body, [], *args))
+    outs = []
+    for k, spec in enumerate(P['out_specs']):
+      d_ = dim_of(spec)
+      items = [per[i][k] for i in range(n)]
+      if d_ is None:
+        outs.append(items[0])
+      elif any(is_sym(t) for t in items):
+        outs.append(np.concatenate([self.lift(t) for t in items], axis=d_))
+      else:
+        outs.append(np.concatenate([np.asarray(t) for t in items], axis=d_))
+    return outs
 
   # -- cuts ---------------------------------------------------------------------------------------
   def opaque(self, eqn, ins):
